@@ -16,7 +16,7 @@ Definition leader_of (mk : Z * Z * str * str) : str := match mk with (_, _, l, _
 
 Lemma item_loop_sibling types leader w : forall ls tail buf taken,
   Forall sline_ok ls -> Forall (fun l => l <> SBlank) ls ->
-  (tail = [] \/ exists T more mk', tail = T :: more /\ parse_continuation T (Z.of_nat w) = None /\ any_interrupt types BK_List tail = false /\
+  (tail = [] \/ exists T more mk', tail = T :: more /\ parse_continuation T (Z.of_nat w) = None /\ item_interrupt types tail = false /\
                                    parse_marker T = Some mk' /\ same_marker_type leader (leader_of mk') = true) ->
   item_loop types leader (map (embed_line w) ls ++ tail) (Z.of_nat w) buf taken 0 =
   (rev (rev (map render_line ls) ++ buf), (taken + length ls)%nat, match tail with [] => None | T :: _ => parse_marker T end).
@@ -197,9 +197,7 @@ Section OL.
         pose proof Hwx as Hwx0. cbn [owf] in Hwx. apply andb_true_iff in Hwx as [Htx _]. destruct (title_facts c' body' Htx) as (_ & Hc' & Hns' & Hbc' & B10' & _).
         eexists. eexists. exists (marker_of k (ONode c' body' kids')). split; [reflexivity|]. split; [|split; [|split]].
         + apply bline_continuation_low; try assumption. lia.
-        + apply bline_no_interrupt; try assumption.
-          destruct (forest_ok f (ONode c' body' kids' :: r) k Hmore) as (_ & _ & NP). rewrite forest_head in NP. inversion NP as [|? ? _ NP']; subst.
-          destruct (map _ _ ++ _) as [|l2 l3]; [exact I|]. inversion NP'; assumption.
+        + apply bline_no_item_interrupt; assumption.
         + apply bline_parse_marker; assumption.
         + cbn [marker_of leader_of]. unfold same_marker_type. cbn [slen length Z.of_nat Pos.of_succ_nat Z.eqb Pos.eqb str_eqb]. rewrite Z.eqb_refl. reflexivity.
     Qed.
